@@ -110,7 +110,7 @@ def draw_group(seed):
     canon = [["ms", ci, mi] for _, ci, mi in allm] + [["cs", ci] for _, ci, _ in allc]
     # one recursion limit for ALL processes of the group (the property does not promise equal output under different limits,
     # but under one limit deep methods must fail, or succeed, the same way whatever happened earlier in the process)
-    rec_limit = r.choice([None, None, None, 400, 220])
+    rec_limit = r.choice([None, None, None, 400, 220, 90, 70, 60])
     cfgs = [{"hashseed": 0, "layout": 0, "gc": None, "prewarm": False, "xref": True, "recursion_limit": rec_limit}]
     hist = [canon]
     hr = core.rng(seed, "history")
